@@ -3,8 +3,8 @@
 Our own parser for the grammar notation (rules `name = expr`, sequences by juxtaposition, ordered choice `/` between terms, grouping,
 `? * +`, string literals, `~"regex"` terminals, `!`/`&` look-ahead) and our own packrat interpreter with PEG semantics (ordered choice
 commits to the first success, repetition is greedy and never backtracks).  Regex terminals are matched with engines/relang DFAs as
-"longest prefix in the language", which coincides with the backtracking engine's choice only for patterns that are a single greedy
-repetition of one character class or whose language is prefix-free; any other terminal -> AnalysisError.
+"longest prefix in the language", which coincides with the backtracking engine's choice only for patterns that are single-character items
+followed by one greedy repetition of one character class, or whose language is prefix-free; any other terminal -> AnalysisError.
 
 The strict notation is accepted only: an alternation's members are single terms (parenthesise sequences), as in every parsimonious
 release; `a b / c` (legal only from 0.10 on) is declined.
@@ -198,10 +198,13 @@ def longest_match_safe(pattern: str) -> bool:
         import sre_parse as spr  # type: ignore
     parsed = spr.parse(pattern)
     items = list(parsed)
-    if len(items) == 1 and items[0][0] is sc.MAX_REPEAT:
-        _lo, _hi, sub = items[0][1]
+    single = (sc.IN, sc.LITERAL, sc.NOT_LITERAL, sc.ANY)
+    # a fixed-length prefix of single-character items followed by ONE greedy repetition of a single-character item: the only freedom is
+    # the repetition count and the greedy engine takes the maximum, i.e. the longest prefix in the language
+    if items and items[-1][0] is sc.MAX_REPEAT and all(it_[0] in single for it_ in items[:-1]):
+        _lo, _hi, sub = items[-1][1]
         subitems = list(sub)
-        if len(subitems) == 1 and subitems[0][0] in (sc.IN, sc.LITERAL, sc.NOT_LITERAL, sc.ANY):
+        if len(subitems) == 1 and subitems[0][0] in single:
             return True
     return R.prefix_free(R.lang(r, pattern)) is None
 
@@ -404,3 +407,80 @@ def top_sequence_arity(g: Grammar, rule: str) -> Optional[int]:
     if e[0] in ('opt', 'star', 'plus'):
         return None
     return None
+
+
+# --------------------------------------------------------------------------------------
+# parsimonious-shaped trees (what a NodeVisitor sees)
+# --------------------------------------------------------------------------------------
+
+
+class PNode:
+    """A node as parsimonious builds it: `expr_name` is the rule name for the node of a rule's own expression ('' for anonymous
+    sub-expressions), `children` follow the expression kind (sequence: one per member; ordered choice: the matched alternative only;
+    optional / repetition: the matches; literal / regex / look-ahead: none)."""
+    __slots__ = ('expr_name', 'full_text', 'start', 'end', 'children')
+
+    def __init__(self, expr_name: str, full_text: str, start: int, end: int, children: List['PNode']):
+        self.expr_name = expr_name
+        self.full_text = full_text
+        self.start = start
+        self.end = end
+        self.children = children
+
+    @property
+    def text(self) -> str:
+        return self.full_text[self.start:self.end]
+
+
+def parsimonious_tree(g: Grammar, text: str, rule: Optional[str] = None) -> PNode:
+    """Full parse of `text` and conversion to the node shapes parsimonious hands to NodeVisitor.visit (ParseFailure if no parse)."""
+    rule = rule or g.default
+    node = g.parse(text, rule)
+    for name, e in g.rules.items():
+        if e[0] == 'ref':
+            raise AnalysisError(f'{g.where}: rule {name} is a bare alias of {e[1]}; its node name differs between parsimonious releases')
+        for sub in _subexprs(e):
+            if sub[0] in ('star', 'plus') and _nullable(g, sub[1], set()):
+                raise AnalysisError(f'{g.where}: rule {name} repeats an expression that can match the empty string; parsimonious releases '
+                                    'differ on the children of such a node')
+
+    def conv(n: Node, name: str) -> PNode:
+        if n.kind == 'rule':
+            if name:
+                raise AnalysisError(f'{g.where}: alias chain at rule {name}')
+            return conv(n.children[0], n.label)
+        if n.kind in ('lit', 're', 'not', 'and'):
+            return PNode(name, text, n.start, n.end, [])
+        return PNode(name, text, n.start, n.end, [conv(c, '') for c in n.children])
+    return conv(node, '')
+
+
+def _subexprs(e: Expr) -> List[Expr]:
+    out = [e]
+    if e[0] in ('seq', 'alt'):
+        for x in e[1]:
+            out += _subexprs(x)
+    elif e[0] in ('opt', 'star', 'plus', 'not', 'and'):
+        out += _subexprs(e[1])
+    return out
+
+
+def _nullable(g: Grammar, e: Expr, seen: set) -> bool:
+    k = e[0]
+    if k == 'lit':
+        return e[1] == ''
+    if k == 're':
+        return R.accepts(R.from_regex(e[1], 0, 'fullmatch'), '')
+    if k == 'ref':
+        if e[1] in seen:
+            return False
+        return _nullable(g, g.rules[e[1]], seen | {e[1]})
+    if k == 'seq':
+        return all(_nullable(g, x, seen) for x in e[1])
+    if k == 'alt':
+        return any(_nullable(g, x, seen) for x in e[1])
+    if k in ('opt', 'star', 'not', 'and'):
+        return True
+    if k == 'plus':
+        return _nullable(g, e[1], seen)
+    return False
